@@ -297,7 +297,7 @@ func c05tGen(tier string, rng *rand.Rand) []tCase {
 	initRegistry()
 	nsets, nrand, npk, allCut := 26, 120, 40, 160
 	if tier == "thorough" {
-		nsets, nrand, npk, allCut = 150, 3000, 400, 300
+		nsets, nrand, npk, allCut = 300, 4000, 500, 300
 	}
 	var cs []tCase
 	main := rng
